@@ -1246,14 +1246,21 @@ func c18PublishedBehindTheSweep(c *Ctx) {
 				bad = "the stopping flag is set at " + c.Pos(st) + " without Engine.mux"
 				continue
 			}
-			bad = "the stopping flag is not set before the connection table is taken"
+			bad = "the stopping flag is not set in the critical section that takes the connection table"
 			for _, a := range c.P.FieldAccesses(stop, func(k string) bool { return k == "nbio.Engine.connsUnix" }) {
-				if same, _ := L.SameRegion(fi, fMux, st, a.In); !a.Write && fi.Dominates(st, a.In) && same {
+				if a.Write || !L.HeldClass(a.In, fMux) {
+					continue
+				}
+				// one critical section, in either order: what matters is that no addConn can look at the
+				// flag between the snapshot and the store
+				before, _ := L.SameRegion(fi, fMux, st, a.In)
+				after, _ := L.SameRegion(fi, fMux, a.In, st)
+				if fi.Dominates(st, a.In) && before || fi.Dominates(a.In, st) && after {
 					bad = ""
 				}
 			}
 		}
-		c.Cond(bad == "", ob, key, c.FnPos(stop), "stopping = true before the table snapshot, same critical section", bad)
+		c.Cond(bad == "", ob, key, c.FnPos(stop), "stopping = true in the critical section of the table snapshot", bad)
 	}
 	// addConn: after the table store, on the way to the success return, the flag is read and its true edge closes
 	{
